@@ -27,7 +27,13 @@ import (
 	"time"
 )
 
-const root = "/verif"
+// root is the directory holding MANIFEST.json, harness/, out/ and evidence/ (the launcher exports its own location).
+var root = func() string {
+	if r := os.Getenv("VERIF_ROOT"); r != "" {
+		return r
+	}
+	return "/verif"
+}()
 
 type tierCfg struct {
 	Shards   int
